@@ -216,9 +216,7 @@ func checkSingle(prop string, r *Req, d *DAG, sel ipld.Node, sp Split, finalStor
 	// canonical key order there. The reference walks that form.
 	csel, nonCanon := CanonicalSelector(sel)
 	v := checkSingleCanon(prop, r, d, csel, sp, finalStore)
-	if v != nil && selectorOrderMatters(sel) && nonCanon {
-		v.Signature = "noncanonical-selector-order:" + v.Signature
-	}
+	_ = nonCanon // the requestor now walks the canonical form too (fixed defect); no tag
 	if v != nil && SkipCountDesync(d, csel, sp) {
 		// input class of a recorded finding: the requestor loaded N blocks from its
 		// own store before going remote and asks the responder to skip its first N,
